@@ -89,6 +89,17 @@ func (f *zzFeeEstimator) Start() error                         { return nil }
 func (f *zzFeeEstimator) Stop() error                          { return nil }
 func (f *zzFeeEstimator) RelayFeePerKW() chainfee.SatPerKWeight { return 253 }
 
+// zzClock is the wall clock of the invoice registries. Under the bubble's fake
+// time a timer fires at EXACTLY its deadline, and the invoice expiry watcher
+// spins (it re-arms a zero timer) while "deadline.Before(now)" is false; a
+// real clock has always moved on by then. Timers therefore fire 1us late.
+type zzClock struct{}
+
+func (zzClock) Now() time.Time { return time.Now() }
+func (zzClock) TickAfter(d time.Duration) <-chan time.Time {
+	return time.After(d + time.Microsecond)
+}
+
 // zzPreimageCache is a durable (survives restarts) witness cache that, like
 // the real one, cannot be written once the node's database is gone.
 type zzPreimageCache struct {
@@ -367,12 +378,12 @@ func (n *zzNode) boot() error {
 	registry := invoices.NewRegistry(
 		db,
 		invoices.NewInvoiceExpiryWatcher(
-			clock.NewDefaultClock(), 0, 0, nil, &mockChainNotifier{},
+			zzClock{}, 0, 0, nil, &mockChainNotifier{},
 		),
 		&invoices.RegistryConfig{
 			FinalCltvRejectDelta: 5,
 			HtlcInterceptor:      &invoices.MockHtlcModifier{},
-			Clock:                clock.NewDefaultClock(),
+			Clock:                zzClock{},
 		},
 	)
 	if err := registry.Start(); err != nil {
